@@ -1185,8 +1185,10 @@ class _CycleCell(_Cell):
     def __init__(self, *args, **kwargs):
         self._value = None
         self._prev_value = None
-        self.wip = False
+        # None while the cell is being built
+        self.wip = None
         super().__init__(*args, **kwargs)
+        self.wip = False
 
     @property
     def value(self):
@@ -1197,6 +1199,10 @@ class _CycleCell(_Cell):
 
     @value.setter
     def value(self, a_value):
+        if self.wip is None:
+            # the value a cell is built with has not been calculated
+            self._value = a_value
+            return
         iterative_eval_tracker.calced(self)
         self.wip = False
         self._value = a_value
